@@ -70,7 +70,10 @@ PROGRAMS = [
      ["s", "c", "y", "s*c", "x*c"]),
     ("constants", "a = Exp(2)\nb = Cos(0)\nd = Sin(1/2)\nx = 0\nwhile true:\n    k = Exp(-1)\n    x = x + a*k + b - d\nend\n", ["a", "x", "b", "d"]),
     ("reference_chain", "x = 0\nu = 0\ns = 0\nt = 0\nwhile true:\n    x = Bernoulli(1/3)\n    u = x\n    s = Sin(u)\n    t = t + s + u*s\nend\n", ["s", "t", "u*s"]),
-    ("previous_value", "x = 1\ny = 0\nz = 0\nwhile true:\n    x = DiscreteUniform(1, 2)\n    z = z + y\n    y = Cos(x)\nend\n", ["y", "z", "y*x"]),
+    ("previous_value", "x = 1\ny = 0\nz = 0\nwhile true:\n    x = DiscreteUniform(1, 2)\n    z = z + y\n    y = Cos(x)\nend\n", ["y", "z", "y*x", "y*z"]),
+    # the previous value of a functional variable is read before it is reassigned: old and new value in one monomial
+    ("old_and_new_value", "a = 0\ns = 0\ny = 0\nwhile true:\n    a = Bernoulli(1/2)\n    y = s*a\n    s = Sin(a)\nend\n", ["y*s", "y", "s", "y*s*a"]),
+    ("old_value_in_condition", "a = 0\ns = 0\nc = 0\nwhile true:\n    a = Bernoulli(1/2)\n    if a == 1:\n        c = c + s\n    end\n    s = Cos(a)\nend\n", ["c", "c*s", "s"]),
     # conditioned functional assignments: in a branch, under the loop guard, nested, with a constant argument
     ("cond_exp_of_draw", "f = 0\ny = 0\nu = 0\ns = 0\nwhile true:\n    f = Bernoulli(1/2)\n    u = DiscreteUniform(0, 1)\n    if f == 1:\n        y = Exp(u)\n    end\n    s = s + y\nend\n",
      ["y", "s", "y*u", "y**2"]),
